@@ -137,6 +137,37 @@ theorem C09_chan_snapshot_at_write (f : Nat) (Hw Hr : Heaps) (t : Nat) (v v' : V
     rw [hx] at e1; cases e1
     exact ⟨lookup_none_of_ge Hr x (by rw [e2]; exact e3), e2⟩
 
+/-- **A channel inside a message is the SAME queue.**  If the written graph holds a handle on queue `q` (at any
+    depth: directly, in a struct, an array, a variant), the received copy holds — at the corresponding place — a
+    fresh handle object of the reader on that very queue `q`, whatever became of the writer and of every other
+    handle: the heaps `Hr` at read time are arbitrary (`dropThread`, collection).  A queue is not an object of any
+    thread's heap — in the runtime model it is an entry of `Runtime.chans`, which no thread's end touches — so the
+    values pending in it survive the hand-over: `C09_chan_refines_queue` (written = read ++ still queued, for every
+    schedule) applies to the inner queue like to any other. -/
+theorem C09_chan_in_message_same_queue (f : Nat) (Hw Hr : Heaps) (t : Nat) (v v' : Val) (H' : Heaps)
+    (hrecv : chanReceive f Hw Hr t v = some (v', H'))
+    (w : Val) (a : Addr) (q : Nat) (hw : ReachV Hw v w) (ha : ptr? w = some a) (hq : lookup Hw a = some (.chan q)) :
+    ∃ M c a', mapVal? M v = some v' ∧ mapVal? M w = some c ∧ ptr? c = some a' ∧ a'.tid = t ∧
+      lookup Hr a' = none ∧ lookup H' a' = some (.chan q) := by
+  obtain ⟨M, hm⟩ := chanReceive_unpack hrecv
+  obtain ⟨p, hv⟩ := deepCopyM_post Hw t f Hr [] v v' H' M hm
+  have iso := iso_of_post p
+  obtain ⟨c, hc⟩ := iso_cover iso hv w hw
+  have hc' := hc
+  simp only [mapVal?, ha] at hc'
+  obtain ⟨obj, ks, a', d1, d2, d3, d4, _⟩ := iso.done _ _ hc'
+  rw [hq] at d1; cases d1
+  obtain ⟨a'', e1, e2, e3, _⟩ := p.fresh a c hc' rfl
+  rw [d2] at e1; cases e1
+  simp only [Obj.kids, mapList?] at d3
+  cases d3
+  exact ⟨M, c, a', hv, hc, d2, e2, lookup_none_of_ge Hr a' (by rw [e2]; exact e3), by simpa [Obj.withKids] using d4⟩
+
+/-- the queues of a runtime are not owned by threads: the end of a thread's turn (its drop included) leaves every
+    queue as it is -/
+theorem C09_queue_outlives_threads {T V E : Type} (r : Abra.Sched.Runtime T V E) (th : Abra.Sched.Thread T E) :
+    (Abra.Sched.finishThreadTurn r th).1.chans = r.chans := Abra.Sched.ftt_chans r th
+
 /-- … in particular a value that rendered as `tr` when it was written is received rendering as `tr`, whatever
     happened to the writer's heap in between. -/
 theorem C09_chan_copy_valid (f g : Nat) (Hw Hr : Heaps) (t : Nat) (v v' : Val) (H' : Heaps) (tr : Tree)
